@@ -16,6 +16,10 @@ CODES = {1: "record malformed / returned matrix not a well-formed CSR", 10: "com
 
 
 def run(ctx):
+    import clilib as _clc
+    _clc.stream(ctx, "clictu", gen.clictu_lines(ctx.rng.fork("clictu"), 600 if ctx.quick else 15000),
+                "cmr-ctu -r/-c and -N: written matrix vs. the complement model on the matrix parsed from the input bytes",
+                lambda c: gen.CLICTU_CODES.get(c, str(c)))
     import clilib
     clilib.stream(ctx, "cliverdict", gen.cliverdict_lines(ctx.rng.fork("cliverdict"), 6, 1, 400 if ctx.quick else 8000, (0, 1), 4, 4, 12, False),
                   "cmr-ctu: verdict line vs. the definition-level oracle on the matrix parsed from the input bytes",
